@@ -16,7 +16,8 @@
    harness/props/c02.py. *)
 From Coq Require Import List NArith Bool.
 From Verif.C20 Require Import Model.
-From Verif.Evo Require Import Model ProofsBase ProofsEvo ProofsTop ProofsDObj.
+From Coq Require Import Permutation.
+From Verif.Evo Require Import Model ProofsBase ProofsEvo ProofsTop ProofsDObj ProofsDiff.
 Import ListNotations.
 
 (* any command list with the partition property, in any dependency-respecting order, applied to
@@ -27,6 +28,16 @@ Theorem C02_apply_partition : forall A B cs,
   exists S, apply_all cs A = inl S /\ sch_equiv S B.
 Proof. exact p_apply_partition. Qed.
 Print Assumptions C02_apply_partition.
+
+(* "whichever plan the diff engine picks": for EVERY valid matching m (class-preserving partial
+   bijection; unmatched old objects are dropped, unmatched new ones created, matched ones altered /
+   renamed) and EVERY dependency-respecting order of the induced commands, the result is B *)
+Theorem C02_diff_any_order : forall m A B cs,
+  wfb A = true -> wfb B = true -> valid_mb m A B = true ->
+  Permutation cs (diff m A B) -> deps_okb A [] cs = true ->
+  exists S, apply_all cs A = inl S /\ sch_equiv S B.
+Proof. exact p_diff_any_order. Qed.
+Print Assumptions C02_diff_any_order.
 
 (* for every matching m: if the planner returns a plan, applying it gives B *)
 Theorem C02_diff_apply : forall m A B cs, plan m A B = Plan cs ->
